@@ -140,6 +140,19 @@ CHECKS["C08"] = dict(
          "user regexes beyond the 12-pattern corpus, tokens formed accidentally by context characters, first octet 0, archive "
          "collection, failure of cleaning as a whole (nothing is produced then).")
 
+CHECKS["C09"] = dict(
+    text="Bounded symbolic execution of the real obfuscation databases and parse_line/mapping code: (1) one _ip2db step from an "
+         "arbitrary injective database of <=12 symbolic originals with consecutive keys and an unconstrained 32-bit address - an "
+         "inductive step that covers histories of any length; (2) the same for the host-name database; (3) MAC histories of 3 steps "
+         "over addresses with symbolic digits and the substitute text of an earlier one, sha1 uninterpreted; (4) string-level "
+         "histories of 2 (quick) / 3 (thorough) lines through one cleaner after 0 or 9 earlier addresses, tokens from address "
+         "families with symbolic digits incl. the substitute range, any token may recur: the output must equal the simultaneous "
+         "replacement of every token by the substitute mapping() reports for it, the report must be injective, functional and "
+         "list nothing that never occurred; (5) the same for host names.",
+    note="One recorded finding (known_findings.txt): originals inside 10.230.230.0/24 are rewritten by the chained textual replace; "
+         "paths carrying that signature are kept apart and one is replayed per run, every other violation is still reported. "
+         "Outside: SHA-1 collisions, IPv6, keyword mapping, the facts/CSV files.")
+
 NOT_APPLICABLE = {
 }
 
